@@ -198,7 +198,9 @@ def calendar_text(cal, defs):
         for p in cp["props"]:
             par = ";TZID=" + p["tzid"]
             if p["name"] == "FREEBUSY":
-                lines.append(f"FREEBUSY{par}:" + ",".join(_fmt(w) + "/" + _fmt(_plus_hour(w)) for w in p["walls"]))
+                # duration form: an explicit end one wall-clock hour later can precede the start across a
+                # DST change of the referenced zone, which the library rightly rejects
+                lines.append(f"FREEBUSY{par}:" + ",".join(_fmt(w) + "/PT1H" for w in p["walls"]))
             elif p["name"] in ("RDATE", "EXDATE"):
                 lines.append(f"{p['name']}{par}:" + ",".join(_fmt(w) for w in p["walls"]))
             else:
